@@ -181,6 +181,8 @@ def run(ctx):
     slow = 0.0
     per_class = {}
 
+    ncalls = [0]
+
     def identify(data, via_path=False):
         nonlocal slow
         t0 = time.time()
@@ -193,6 +195,10 @@ def run(ctx):
             pos = 0
         else:
             f = io.BytesIO(data)
+            # the caller may have looked at the file already (peeked at a few bytes, read it to the end, asked zipfile about it)
+            ncalls[0] += 1
+            entry = [0, 0, 16, len(data), 1][ncalls[0] % 5]
+            f.read(min(entry, len(data)))
             r = B.binary_file_type(f)
             pos = f.tell()
             if f.read() != data[pos:]:
